@@ -28,6 +28,12 @@ static inline route_t route_cat(route_t a, route_t b)
 {
   route_t r; r.len = a.len + b.len; r.id = ROUTE_CAT(a.id, b.id); r.last = b.len > 0 ? b.last : a.last; return r;
 }
+/* route::next_hop(): a route holding only the first hop */
+int __CPROVER_uninterpreted_route_first(int id);
+static inline route_t route_next_hop(route_t a)
+{
+  route_t r; r.len = a.len > 0 ? 1 : 0; r.id = __CPROVER_uninterpreted_route_first(a.id); r.last = a.len == 1 ? a.last : 0; return r;
+}
 static inline void route_append_route(route_t *r, route_t tail) { *r = route_cat(*r, tail); }
 static inline void route_append_sink(route_t *r, sink_ref s, int sid)
 {
